@@ -21,7 +21,7 @@ CONSTANTS Backends,    \* the backends explored, subset of {"http","cloud","git"
 
 VARIABLES nsnaps, nraw, nmut, nreads, h
 mvars == <<vars, nsnaps, nraw, nmut, nreads, h>>
-MView == <<vars, nsnaps, nraw, nmut, nreads>>
+MView == <<backend, store, nver, nextNonce, sealLog, nseals, returned, phase, nsnaps, nraw, nmut, nreads>>
 
 WKeys == {<<k, "s1">> : k \in WSecrets}
 
